@@ -623,6 +623,9 @@ def explore_to_part(cfg, prop, max_wall=None):
         )
     if res.counters.get("executions_cut_at_the_horizon"):
         part.notes.append("%s: executions were cut after %s steps (horizon); nothing is claimed beyond that point" % (cfg.name, getattr(cfg, "horizon_steps", "?")))
+    if res.unsound:
+        part.count("driver_crashes")
+        part.notes.append("%s: %s" % (cfg.name, res.unsound))
     if not res.exhaustive:
         part.count("configurations_not_exhausted")
         part.notes.append("%s: budget hit at %d states (not exhaustive)" % (cfg.name, res.states))
